@@ -80,8 +80,12 @@ class Registry(object):
         return out
 
     def contains(self, data):
-        """Kinds whose full value occurs in data (bytes) - used for 'canary in flight'."""
-        return sorted(set(k for k, v, _ in self.items if v in data))
+        """Kinds of which at least one window occurs in data (bytes): 'canary in flight'."""
+        out = set()
+        for kind, win, _, _ in self.windows():
+            if kind not in out and win in data:
+                out.add(kind)
+        return sorted(out)
 
 
 # ----------------------------------------------------------------------------- capture
